@@ -36,8 +36,8 @@ theorem rescale_scale (c : Cfg) [Fact c.t.Prime] (ht : c.t < 2 ^ 64) (hQ : ∀ q
     (h : step c .rescale o a .none = .ok [r]) :
     (r.scale : ZMod c.t) = (a.scale : ZMod c.t) * ((c.qs.getD a.level 1 : Nat) : ZMod c.t)⁻¹
     ∧ r.level + 1 = a.level ∧ r.degree = a.degree ∧ msg c.t r = msg c.t a := by
-  have := rescaleOp_sound c ht hQ o a r ha hsi h
-  exact ⟨this.2.2.1, this.2.2.2.1, this.2.2.2.2, this.1⟩
+  have := rescaleOp_sound c ht hQ o a r ha h
+  exact ⟨(this.2.2.1 hsi).1, (this.2.2.1 hsi).2.1, (this.2.2.1 hsi).2.2, this.1⟩
 
 /-- `tensorStandard`: scale' = s0·s1 (mod t); degree 2 (1 with relinearisation) for ct×ct, op0's degree otherwise. -/
 theorem mul_scale (c : Cfg) (relin : Bool) (a b r : Reg) (lvl : Nat)
@@ -61,14 +61,20 @@ theorem mul_scale_invariant (c : Cfg) (relin : Bool) (a b r : Reg) (lvl : Nat)
   all_goals (cases h)
   all_goals simp_all
 
+/-- `Rescale` on a scale-invariant (BFV-style) evaluator: the receiver becomes a copy of op0. -/
+theorem rescale_scale_invariant (c : Cfg) [Fact c.t.Prime] (ht : c.t < 2 ^ 64) (hQ : ∀ q ∈ c.qs, (q : ZMod c.t) ≠ 0)
+    (o : Out) (a r : Reg) (ha : (a.scale : ZMod c.t) ≠ 0) (hsi : c.si = true)
+    (h : step c .rescale o a .none = .ok [r]) : r = a :=
+  (rescaleOp_sound c ht hQ o a r ha h).2.2.2 hsi
+
 /-! ## meta_spec: level / degree / scale of the output, decision logic stated outright -/
 
 /-- Add/Sub of two elements with EQUAL scales: level = min of the three levels, degree = max of the
-    three degrees (`InitOutputBinaryOp`), scale unchanged. -/
+    two operand degrees (`InitOutputBinaryOp`; the receiver is resized to it), scale unchanged. -/
 theorem meta_add_same (c : Cfg) (isSub : Bool) (o : Out) (a rb r : Reg) (hs : a.scale = rb.scale)
     (h : addSub c isSub o a (.reg rb) = .ok [r]) :
     r.level = min (min a.level rb.level) (outReg c o a (max a.degree rb.degree) (min a.level rb.level)).level
-    ∧ r.degree = max (max a.degree rb.degree) (outReg c o a (max a.degree rb.degree) (min a.level rb.level)).degree
+    ∧ r.degree = max a.degree rb.degree
     ∧ r.scale = a.scale := by
   unfold addSub at h
   simp only [Arg.reg?] at h
@@ -82,7 +88,7 @@ theorem meta_add_same (c : Cfg) (isSub : Bool) (o : Out) (a rb r : Reg) (hs : a.
 theorem meta_add_matched (c : Cfg) (isSub : Bool) (o : Out) (a rb r : Reg) (hs : a.scale ≠ rb.scale)
     (h : addSub c isSub o a (.reg rb) = .ok [r]) :
     r.level = min (min a.level rb.level) (outReg c o a (max a.degree rb.degree) (min a.level rb.level)).level
-    ∧ r.degree = max (max a.degree rb.degree) (outReg c o a (max a.degree rb.degree) (min a.level rb.level)).degree
+    ∧ r.degree = max a.degree rb.degree
     ∧ r.scale = a.scale * (matchScales c.t a.scale rb.scale).1 % c.t := by
   unfold addSub at h
   simp only [Arg.reg?] at h
@@ -276,6 +282,7 @@ end Lattigo.BGV.C05
 
 #print axioms Lattigo.BGV.C05.matchScales_spec
 #print axioms Lattigo.BGV.C05.rescale_scale
+#print axioms Lattigo.BGV.C05.rescale_scale_invariant
 #print axioms Lattigo.BGV.C05.mul_scale
 #print axioms Lattigo.BGV.C05.mul_scale_invariant
 #print axioms Lattigo.BGV.C05.meta_add_same
